@@ -1,4 +1,5 @@
 import CanVerif.Lemmas.Json
+import CanVerif.Lemmas.JsonParse
 import CanVerif.Props.C15
 /-!
 # C16  Frame <-> JSON: output is valid JSON that round-trips every valid frame
@@ -8,7 +9,8 @@ members are the ones the property lists (`C16_members`), and decoding that objec
 rules of `encoding/json` + the logic of `UnmarshalJSON` returns the frame (`C16_roundtrip_tree`).
 The text -> tree step (`parseJson`, a model of `encoding/json`'s scanner) is executable and compared with
 `encoding/json` on every run (`fjson` operations carry `json.Valid` and the model parser's verdict; `jrt`
-operations run the full text round trip, also inside larger documents); it is not proved inverse to `renderObj`.
+operations run the full text round trip, also inside larger documents); on the encoder's output it is proved to
+return the tree that was written (`parseJson_renderObj`), which closes the text round trip (`C16_roundtrip_text`).
 -/
 namespace CanVerif
 
@@ -71,6 +73,57 @@ theorem C16_roundtrip_tree (f : Frame) (hv : f.validate = true) (hz : f.UnusedZe
   all_goals first
     | (rw [← hz]; rfl)
     | simp [frameOfJF]
+
+theorem hexLower_plain : ∀ n : Fin 16, hexLower n.val ≠ 34 ∧ hexLower n.val ≠ 92 ∧ 32 ≤ (hexLower n.val).toNat := by
+  decide
+
+theorem hexEncodeLower_plain (bs : List UInt8) : Plain (hexEncodeLower bs) := by
+  intro c hc
+  unfold hexEncodeLower at hc
+  simp only [List.mem_flatMap, List.mem_cons, List.mem_nil_iff, or_false] at hc
+  obtain ⟨b, _, h | h⟩ := hc
+  · rw [h]; exact hexLower_plain ⟨b.toNat / 16, by have := b.toNat_lt; omega⟩
+  · rw [h]; exact hexLower_plain ⟨b.toNat % 16, Nat.mod_lt _ (by decide)⟩
+
+theorem expectedMembers_simple (f : Frame) : expectedMembers f ≠ [] ∧ ∀ kv ∈ expectedMembers f, SimpleM kv := by
+  have pk : Plain (strOf "id") ∧ Plain (strOf "data") ∧ Plain (strOf "extended") ∧ Plain (strOf "remote") ∧
+      Plain (strOf "length") := by
+    refine ⟨?_, ?_, ?_, ?_, ?_⟩ <;> (intro c hc; revert c; decide)
+  refine ⟨by simp [expectedMembers], ?_⟩
+  intro kv hkv
+  unfold expectedMembers at hkv
+  simp only [List.mem_append, List.mem_cons, List.mem_nil_iff, or_false] at hkv
+  rcases hkv with ((h | h) | h) | h
+  · rw [h]; exact ⟨pk.1, SimpleV.num _⟩
+  · split at h
+    · simp only [List.mem_cons, List.mem_nil_iff, or_false] at h
+      rw [h]; exact ⟨pk.2.1, SimpleV.str _ (hexEncodeLower_plain _)⟩
+    · cases h
+  · split at h
+    · simp only [List.mem_cons, List.mem_nil_iff, or_false] at h
+      rw [h]; exact ⟨pk.2.2.1, SimpleV.tt⟩
+    · cases h
+  · split at h
+    · simp only [List.mem_cons, List.mem_nil_iff, or_false] at h
+      rcases h with h | h
+      · rw [h]; exact ⟨pk.2.2.2.1, SimpleV.tt⟩
+      · rw [h]; exact ⟨pk.2.2.2.2, SimpleV.num _⟩
+    · cases h
+
+/-- Text round trip: for every valid frame whose unused data bytes are zero, decoding the JSON text the encoder
+writes yields the identical frame. -/
+theorem C16_roundtrip_text (f : Frame) (hv : f.validate = true) (hz : f.UnusedZero) :
+    ∃ s, f.json = .ok s ∧ unmarshalJSON s = some f := by
+  refine ⟨_, C16_members f hv, ?_⟩
+  obtain ⟨hne, hs⟩ := expectedMembers_simple f
+  have hp := parseJson_renderObj (expectedMembers f) hne hs
+  have ht := C16_roundtrip_tree f hv hz
+  unfold unmarshalJSON
+  rw [hp]
+  unfold asTree at ht
+  cases hd : decodeJF (J.obj (List.map (fun kv => (strOf kv.fst, kv.snd)) (expectedMembers f))) with
+  | none => rw [hd] at ht; cases ht
+  | some jf => rw [hd] at ht; simp only [hd]; exact ht
 
 /-- A remote frame without a length member is rejected. -/
 theorem C16_remote_needs_length (jf : JF) (hr : jf.remote = some true) (hl : jf.length = none) :
